@@ -238,7 +238,17 @@ def classify(geo, q, observed=()):
     # the slope threshold 2e-7 (both relative to the edge, hence <= 2e-7*extent) and isclose (1e-9 relative to |y|);
     # or level with a curve's y-extreme (tangential contact)
     band = EPS * ext + 1e-9 * max(geo.maxabs_y, abs(y))
-    if any(abs(y - ny) <= band for _, ny in geo.nodes): return 'C11-ray-level-with-node'
+    near = [i for i, (_, ny) in enumerate(geo.nodes) if abs(y - ny) <= band]
+    def clean_pass_through(i):
+        # EXACTLY level with a node where the outline passes straight through between two straight edges whose far ends are clear of the band: the
+        # arriving edge is hit at t = 1 +- rounding (kept), the leaving one at t = 0 +- rounding (dropped) whatever the rounding does -- the
+        # unchanged code answers these correctly (thousands of cases, integer and float polygons), so they are NOT part of the recorded finding
+        prev, cur = geo.cps[i - 1], geo.cps[i]
+        ny = geo.nodes[i][1]
+        if len(prev) != 2 or len(cur) != 2 or ny != y: return False
+        a, b = prev[0][1], cur[1][1]
+        return (a < ny - band and b > ny + band) or (a > ny + band and b < ny - band)
+    if near and not all(clean_pass_through(i) for i in near): return 'C11-ray-level-with-node'
     if any(abs(y - ye) <= 1e-9 * ext for ye in geo.yext): return 'C11-ray-level-with-node'
     # the dict keyed by the crossing point merges two crossings: ray through a crossing of two straight edges
     if any(abs(y - cy) <= 1e-9 * ext for _, cy in geo.cross): return 'C11-ray-through-self-intersection'
